@@ -1448,6 +1448,12 @@ pub fn draw_cfg(rng: &mut Rng, prop: Prop, thorough: bool, kind: Kind) -> RunCfg
 	}
 }
 
+/// Path shapes around the shield rules and the window arithmetic (all valid stand-alone paths).
+const CURATED_PATHS: &[&str] = &[
+	"", "/", "./", "/./", ".", "/.", "..", "/..", "./x", "/./x", ".//x", "/.//x", "./a:b", "/./a:b", "//", "///", "//x", "a/", "a//", "/a/./", "a/./", "a/..", "a/../", "/a/..",
+	"a/../b:c", "/..//x", "a/..//x", "x/./", "x/../..", "a..", "...", "a/b..", "./.", "/././", "./:", ":", "a:b/..", "./a:b/..",
+];
+
 pub fn gen_init(rng: &mut Rng, prop: Prop, stats: &mut Stats) -> (Init, Swarm) {
 	let kinds: &[Kind] = match prop {
 		Prop::C11 => &[Kind::UriBuf, Kind::UriRefBuf, Kind::IriBuf, Kind::IriRefBuf],
@@ -1472,7 +1478,31 @@ pub fn gen_init(rng: &mut Rng, prop: Prop, stats: &mut Stats) -> (Init, Swarm) {
 			Route::FromScheme => format!("{}:", g.scheme()),
 			_ => {
 				if kind.is_path() {
-					g.path(PathCtx::Standalone)
+					if g.rng.chance(1, 10) {
+						g.rng.pick(CURATED_PATHS).to_string()
+					} else {
+						g.path(PathCtx::Standalone)
+					}
+				} else if g.rng.chance(1, 10) {
+					// curated shapes around the disambiguation rules: a scheme / authority prefix
+					// (or none), a path that is or contains a shield, a query or fragment that
+					// contains the delimiters the scanners look for
+					let prefix = if kind.needs_scheme() { *g.rng.pick(&["s:", "s://h", "s://", "s://h:", "s://u@[::1]:8"]) } else { *g.rng.pick(&["", "", "", "s:", "//h", "//", "//h:", "s://h", "s://h:"]) };
+					let has_auth = prefix.contains("//");
+					let bare = prefix.is_empty();
+					let mut path = g.rng.pick(CURATED_PATHS).to_string();
+					if has_auth && !path.is_empty() && !path.starts_with('/') {
+						path.insert(0, '/');
+					}
+					if !has_auth && path.starts_with("//") {
+						path.insert_str(0, "/.");
+					}
+					if bare && path.split('/').next().map(|x| x.contains(':')).unwrap_or(false) {
+						path.insert_str(0, "./");
+					}
+					let tail = *g.rng.pick(&["", "", "?q", "?a:b", "#f", "#x:y", "?a:b#c:d", "?", "#", "?\u{e9}", "?/a/../b", "#/./"]);
+					let tail = if kind.is_iri() { tail.to_string() } else { tail.replace('\u{e9}', "%C3%A9") };
+					format!("{}{}{}", prefix, path, tail)
 				} else {
 					let mut t = g.reference(kind.needs_scheme());
 					if prop == Prop::C11 && split5(t.as_bytes()).authority.is_none() {
